@@ -269,6 +269,26 @@ def run(prog, rep, tier='quick'):
                         okint = e[1].is_integral() if okint in (None, True) else okint
                         if not e[1].is_integral():
                             bad = e[1]
+                    # general form: the yielded value as an exact multiple of the sampling rate; bin index = that * NFFT
+                    vals = [e for e in itp.events if e[0] == 'axis-value']
+                    if not idx and vals:
+                        import sympy as sp
+                        nsym = N.to_sympy()
+                        okint = True
+                        for e in vals:
+                            bi = sp.expand(sp.cancel(e[1] * nsym))
+                            # integral iff a polynomial of degree <= 1 in the symbols with integer coefficients
+                            try:
+                                poly = sp.Poly(bi, *sorted(bi.free_symbols, key=str)) if bi.free_symbols else None
+                                coeffs = poly.coeffs() if poly is not None else [bi]
+                                integral = all(sp.nsimplify(c_).is_integer for c_ in coeffs)
+                            except Exception:
+                                integral = None
+                            if integral is False:
+                                bad = bi
+                            elif integral is None:
+                                okint = None
+                        idx = vals
                     if not idx:
                         rep.undecided('axis', g.qname, label + ' grid', 'yield is not of the form index*df', where)
                     elif bad is not None:
